@@ -72,3 +72,62 @@ def check(chk):
         chk.ob('C03.c', 'pec: ' + name, ok, chk.key('crate', 'C03.c', 'smbus_pec::pec', 'shape:' + name),
                'structural parameter of the PEC routine not recognised: %s' % name)
     chk.extra['pec_routine'] = {'instance': keys[0], 'constants': sorted(set(map(str, consts)))}
+    crc_table(chk, prog, keys[0])
+
+
+def ref_crc8(x):
+    """CRC-8, polynomial x^8 + x^2 + x + 1 (0x07), initial value 0, no reflection, no final XOR - one byte."""
+    crc = x
+    for _ in range(8):
+        crc = ((crc << 1) ^ 0x07) & 0xFF if crc & 0x80 else (crc << 1) & 0xFF
+    return crc
+
+
+def crc_table(chk, prog, key):
+    """C03.e: the per-byte transition of the PEC routine equals the CRC-8/0x07 step for all 256 values.
+
+    smbus_pec::pec is abstractly interpreted on a slice of exactly one symbolic byte x (accumulator 0, so the value fed to
+    the eight inner steps is x itself). The interpreter forks on each tested bit, so the leaves partition the 256 values of
+    x; on each leaf the returned bit-vector, evaluated at the leaf's value, must equal the reference CRC-8 of x. With the
+    structural facts of C03.c (accumulator starts at 0; per byte exactly one XOR-in followed by eight steps that read only
+    the accumulator; the accumulator is returned unchanged) this gives pec(data) = CRC-8/0x07(data) for every length by
+    induction on the bytes."""
+    from interp import Interp
+    from entries import len_term, len_leaf
+    it = Interp(prog)
+
+    def make(interp, st, inst):
+        ty = inst['sig']['inputs'][0]
+        v = interp.build_sym(st, ty, ('data',))
+        st.know.assume(mk_cmp('Eq', len_term('data'), K(USIZE, 1))[1])
+        return [v]
+    try:
+        leaves, na = it.run(key, make)
+    except Exception as e:
+        chk.ob('C03.e', 'pec([x]) for all x', False, chk.key('crate', 'C03.e', 'smbus_pec::pec', 'cannot-interpret'),
+               'the PEC routine cannot be interpreted: %r' % (e,))
+        return
+    x = in_leaf('data', 0)
+    seen = {}
+    bad = []
+    for lf in leaves:
+        if lf.kind != 'return':
+            bad.append('a path of the PEC routine %s: %s' % (lf.kind, lf.panic[1]))
+            continue
+        al = lf.know.leaf_allowed(x)
+        for v in al:
+            try:
+                got = eval_term(lf.value, {x: v}) & 0xFF
+            except CannotEval:
+                got = None
+            seen.setdefault(v, []).append(got)
+    for v in range(256):
+        chk.evals()
+        got = seen.get(v, [])
+        if got != [ref_crc8(v)]:
+            bad.append('pec([0x%02X]) = %s, CRC-8/0x07 gives 0x%02X' % (v, got, ref_crc8(v)))
+    chk.ob('C03.e', 'pec([x]) == CRC-8/0x07(x) for all 256 x', not bad,
+           chk.key('crate', 'C03.e', 'smbus_pec::pec', 'table:' + (bad[0] if bad else '')),
+           'the PEC routine is not CRC-8 with polynomial 0x07, initial value 0: %s' % '; '.join(bad[:3]),
+           show='%d leaves partition the 256 values of the byte; on each the returned bit-vector equals the reference CRC-8 step' % len(leaves))
+    chk.extra['pec_single_byte_leaves'] = len(leaves)
